@@ -15,12 +15,9 @@ import (
 
 const (
 	whatRebuild  = "ctx.Rebuild() differs from a fresh api.Build of the current tree"
-	whatJSXKnown = "ctx.Rebuild() returns stale JSX output after a tsconfig jsx-mode edit (Options.Equal omits jsx fields)"
 	whatWatch    = "watch mode: an edit changes the fresh build result but no watch predicate reports a change"
 	whatTick     = "watch mode: predicates report a dirty path but the watcher's scan never returns it"
 	whatDisk     = "ctx.Rebuild() with write=true leaves an output directory that differs from the returned output files"
-	whatEntryKnown   = "ctx.Rebuild() reports a deleted entry point with a './' prefix that a fresh build does not add (args.entryPoints mutated by an earlier build)"
-	whatMetaDupKnown = "ctx.Rebuild() metafile lists a CSS input twice (JS stub for CSS revisited once newer source indices exist)"
 	whatRepeat   = "a second ctx.Rebuild() without any edit differs from the fresh build"
 )
 
@@ -146,32 +143,6 @@ func runHistory(h *history, dir string, es *execStats) []glueFailure {
 	var fails []glueFailure
 
 	applyOps(root, base, h.Steps[0].Ops)
-	disk := map[string]bool{} // rel paths of .jsx/.tsx files currently on disk
-	var lastNs int64
-	track := func(ops []op) {
-		for _, o := range ops {
-			isJ := strings.HasSuffix(o.Path, ".jsx") || strings.HasSuffix(o.Path, ".tsx")
-			switch o.Kind {
-			case "write":
-				if isJ {
-					disk[o.Path] = true
-				}
-				if o.MtimeNs > lastNs {
-					lastNs = o.MtimeNs
-				}
-			case "remove":
-				delete(disk, o.Path)
-			case "rename":
-				if disk[o.Path] {
-					delete(disk, o.Path)
-				}
-				if strings.HasSuffix(o.To, ".jsx") || strings.HasSuffix(o.To, ".tsx") {
-					disk[o.To] = true
-				}
-			}
-		}
-	}
-	track(h.Steps[0].Ops)
 
 	opts := h.Cfg.options(root, outdir)
 	ctxOpts := opts
@@ -186,34 +157,6 @@ func runHistory(h *history, dir string, es *execStats) []glueFailure {
 	}
 
 	var prevFresh string
-	taint := false
-	cureNo := 0
-
-	// two further deviations that are recorded findings are recognised by their
-	// exact shape, reported under their own kind, and normalised away so that
-	// the rest of the history is still checked
-	normaliseKnown := func(gs string, gcr canonResult, fs string, fcr canonResult, stepNo int, report bool) (string, canonResult) {
-		if n, ok := normaliseEntryPrefix(gcr, h.Cfg.Entries); ok {
-			if ns, _ := json.Marshal(n); string(ns) == fs || equalButMetafileDup(n, fcr) {
-				if report {
-					g, e := firstDiff(gcr, fcr)
-					fails = append(fails, glueFailure{what: whatEntryKnown, stepNo: stepNo, got: g, expect: e})
-				}
-				gcr = n
-				gs = string(ns)
-			}
-		}
-		if gs != fs && equalButMetafileDup(gcr, fcr) {
-			if report {
-				g, e := firstDiff(gcr, fcr)
-				fails = append(fails, glueFailure{what: whatMetaDupKnown, stepNo: stepNo, got: g, expect: e})
-			}
-			gcr.Metafile = fcr.Metafile
-			ns, _ := json.Marshal(gcr)
-			gs = string(ns)
-		}
-		return gs, gcr
-	}
 
 	compare := func(stepNo int) (ok bool, got, expect string, gc, ec canonResult) {
 		rb := ctx.Rebuild()
@@ -232,9 +175,6 @@ func runHistory(h *history, dir string, es *execStats) []glueFailure {
 				es.flakes++
 				return true, gs, fs, gcr, fcr
 			}
-		}
-		if gs != fs {
-			gs, gcr = normaliseKnown(gs, gcr, fs, fcr, stepNo, true)
 		}
 		if h.Cfg.Write && len(rb.Errors) == 0 {
 			es.diskChecks++
@@ -257,10 +197,6 @@ func runHistory(h *history, dir string, es *execStats) []glueFailure {
 		beforeFresh := prevFresh
 		if k > 0 {
 			applyOps(root, base, h.Steps[k].Ops)
-			track(h.Steps[k].Ops)
-			if h.Steps[k].jsxMode {
-				taint = true
-			}
 			if h.Cfg.Watch {
 				dirty = api.VerifDirtyPaths(ctx)
 				watched = api.VerifWatchedPaths(ctx)
@@ -294,37 +230,7 @@ func runHistory(h *history, dir string, es *execStats) []glueFailure {
 			g, e := firstDiff(gc, ec)
 			_ = got
 			_ = expect
-			if taint {
-				// attribution test for the known defect C: make every JSX file's
-				// contents new (which makes the stale cached ASTs unreachable)
-				cureNo++
-				es.cures++
-				var cure []op
-				var names []string
-				for p := range disk {
-					names = append(names, p)
-				}
-				sort.Strings(names)
-				for i, p := range names {
-					b, err := os.ReadFile(filepath.Join(root, p))
-					if err != nil {
-						continue
-					}
-					cure = append(cure, op{Kind: "write", Path: p, Content: string(b) + fmt.Sprintf("// touched %d\n", cureNo), MtimeNs: lastNs + int64(i+1)*1000})
-				}
-				applyOps(root, base, cure)
-				track(cure)
-				ok2, _, _, gc2, ec2 := compare(k)
-				taint = false
-				if ok2 {
-					fails = append(fails, glueFailure{what: whatJSXKnown, stepNo: k, got: g, expect: e})
-				} else {
-					g2, e2 := firstDiff(gc2, ec2)
-					fails = append(fails, glueFailure{what: whatRebuild, stepNo: k, got: g2, expect: e2, detail: map[string]interface{}{"before_touching_jsx_files_got": g, "before_touching_jsx_files_expect": e}})
-				}
-			} else {
-				fails = append(fails, glueFailure{what: whatRebuild, stepNo: k, got: g, expect: e})
-			}
+			fails = append(fails, glueFailure{what: whatRebuild, stepNo: k, got: g, expect: e})
 			if len(fails) > 0 && fails[len(fails)-1].what == whatRebuild {
 				return fails // the context is in an unknown state from here on
 			}
@@ -334,9 +240,6 @@ func runHistory(h *history, dir string, es *execStats) []glueFailure {
 			gs, gcr := canon(rb)
 			var ecr canonResult
 			json.Unmarshal([]byte(prevFresh), &ecr)
-			if gs != prevFresh {
-				gs, gcr = normaliseKnown(gs, gcr, prevFresh, ecr, k, false)
-			}
 			if gs != prevFresh {
 				g, e := firstDiff(gcr, ecr)
 				fails = append(fails, glueFailure{what: whatRepeat, stepNo: k, got: g, expect: e})
@@ -415,12 +318,6 @@ func streamGlue(seed uint64, n int, tier string, tmp string) *Stats {
 				st.Histogram["unconfirmed:"+f.what]++
 				continue
 			}
-			if f.what == whatJSXKnown || f.what == whatEntryKnown || f.what == whatMetaDupKnown {
-				// recorded findings, recognised by their exact shape and replayed
-				// deterministically by the "known" stream: counted, not re-reported
-				st.Histogram["recognised-known-finding:"+f.what]++
-				continue
-			}
 			in := map[string]interface{}{"options": h.Cfg, "failing_step": f.stepNo, "failing_edit": h.Steps[f.stepNo].Desc, "history": h.Steps[:f.stepNo+1]}
 			if f.detail != nil {
 				in["detail"] = f.detail
@@ -435,7 +332,6 @@ func streamGlue(seed uint64, n int, tier string, tmp string) *Stats {
 	st.Extra["watch_steps_with_dirty_paths"] = es.dirtySeen
 	st.Extra["disk_checks"] = es.diskChecks
 	st.Extra["steps_with_build_errors"] = es.errorBuilds
-	st.Extra["jsx_attribution_cures"] = es.cures
 	st.Extra["nondeterministic_fresh_builds"] = es.flakes
 	st.Finish("one case = one edit step of a random real-directory edit history (rebuild on a context vs fresh api.Build, byte equality of outputs, metafile and diagnostics; watch predicates of the previous build vs 'fresh result changed'); all steps are non-trivial (each changes the tree); distinct by history number and edit description")
 	return st
@@ -453,80 +349,3 @@ func relTo(root string, ps []string) []string {
 	return out
 }
 
-// known finding: the first build on a context rewrites the shared entry point
-// list ("src/a.js" -> "./src/a.js"); after the file is deleted the rebuild's
-// "Could not resolve" message carries the prefix and a fresh build's does not
-func normaliseEntryPrefix(g canonResult, entries []string) (canonResult, bool) {
-	changed := false
-	n := g
-	n.Errors = append([]canonMsg{}, g.Errors...)
-	for i, m := range n.Errors {
-		for _, e := range entries {
-			if m.Text == fmt.Sprintf("Could not resolve %q", "./"+e) && m.Loc == nil {
-				m.Text = fmt.Sprintf("Could not resolve %q", e)
-				n.Errors[i] = m
-				changed = true
-			}
-		}
-	}
-	return n, changed
-}
-
-// known finding: everything equal except that the context's metafile has a
-// second "inputs" entry for a .css path
-func equalButMetafileDup(g, f canonResult) bool {
-	if g.Metafile == f.Metafile {
-		return false
-	}
-	g2 := g
-	g2.Metafile = f.Metafile
-	a, _ := json.Marshal(g2)
-	b, _ := json.Marshal(f)
-	if string(a) != string(b) {
-		return false
-	}
-	seen := map[string]int{}
-	dup := false
-	for _, line := range strings.Split(g.Metafile, "\n") {
-		if strings.HasPrefix(line, "    \"") && strings.HasSuffix(line, "\": {") {
-			key := strings.TrimSuffix(strings.TrimPrefix(line, "    \""), "\": {")
-			seen[key]++
-			if seen[key] > 1 && strings.HasSuffix(key, ".css") {
-				dup = true
-			}
-		}
-	}
-	if !dup {
-		return false
-	}
-	// removing the second occurrence of each duplicated .css entry must give the fresh metafile
-	return removeDupCSSInputs(g.Metafile) == f.Metafile
-}
-
-func removeDupCSSInputs(meta string) string {
-	lines := strings.Split(meta, "\n")
-	var out []string
-	seen := map[string]bool{}
-	skip := false
-	for _, line := range lines {
-		if skip {
-			if line == "    }," || line == "    }" {
-				skip = false
-				if line == "    }" && len(out) > 0 && out[len(out)-1] == "    }," {
-					out[len(out)-1] = "    }"
-				}
-			}
-			continue
-		}
-		if strings.HasPrefix(line, "    \"") && strings.HasSuffix(line, "\": {") {
-			key := strings.TrimSuffix(strings.TrimPrefix(line, "    \""), "\": {")
-			if seen[key] && strings.HasSuffix(key, ".css") {
-				skip = true
-				continue
-			}
-			seen[key] = true
-		}
-		out = append(out, line)
-	}
-	return strings.Join(out, "\n")
-}
